@@ -57,7 +57,7 @@ func NewNormalIWishartDistribution(kappa, nu Scalar, mu Vector, lambda Matrix) (
 
   result := NormalIWishartDistribution{
     InverseWishartDistribution: *iw,
-    Kappa : kappa,
+    Kappa : kappa.CloneScalar(),
     Mu    : mu,
     r1    : NullScalar(t),
     r2    : NullScalar(t),
